@@ -468,6 +468,11 @@ pub fn eval_print<W>(program: &Program, state: &mut State, output: &mut W, index
     let format = program_object.as_str()?;
     let mut argument_pointers = state.operand_stack.pop_reverse_sequence(arguments.to_usize())?;
 
+    // Format into a buffer first: a print that fails must not produce partial output.
+    let sink = output;
+    let mut buffer = String::new();
+    let output = &mut buffer;
+
     let mut escaped = false;
     for character in format.chars(){
         match (escaped, character) {
@@ -489,6 +494,7 @@ pub fn eval_print<W>(program: &Program, state: &mut State, output: &mut W, index
     }
     bail_if!(!argument_pointers.is_empty(),
              "{} unused arguments for format `{}`", argument_pointers.len(), format);
+    sink.write_str(buffer.as_str())?;
 
     state.operand_stack.push(Pointer::Null);
     state.instruction_pointer.bump(program);
